@@ -185,6 +185,11 @@ func doPackage(rel string) error {
 	if err := os.MkdirAll(out, 0o755); err != nil {
 		return err
 	}
+	pkgName := ""
+	if len(files) > 0 {
+		pkgName = files[0].Name.Name
+	}
+	resetSrc := genReset(fset, files, info, pkgName)
 	for i, f := range files {
 		fc := &fileCtx{fset: fset, file: f, name: names[i], info: info, needs: map[string]bool{}}
 		fc.rewrite()
@@ -196,7 +201,112 @@ func doPackage(rel string) error {
 			return err
 		}
 	}
+	if resetSrc != "" {
+		if err := os.WriteFile(filepath.Join(out, "zz_simreset_gen.go"), []byte(resetSrc), 0o644); err != nil {
+			return err
+		}
+	}
 	return nil
+}
+
+// genReset generates SimResetGlobals(), which puts every package-level variable back to
+// its initial value (zero value, or its initialiser re-evaluated in initialisation order),
+// so that the harness can start every case from the package state of a fresh process.
+// Variables of type error keep their value (sentinel identity); "_" variables are skipped.
+// The source is produced from the ORIGINAL (not yet instrumented) syntax.
+func genReset(fset *token.FileSet, files []*ast.File, info *types.Info, pkgName string) string {
+	var body []string
+	imports := map[string]string{} // path -> local name
+	isErr := func(t types.Type) bool { return t != nil && t.String() == "error" }
+	exprStr := func(e ast.Expr) string {
+		var b bytes.Buffer
+		printer.Fprint(&b, fset, e)
+		ast.Inspect(e, func(n ast.Node) bool {
+			if id, ok := n.(*ast.Ident); ok {
+				if pn, ok := info.Uses[id].(*types.PkgName); ok {
+					imports[pn.Imported().Path()] = pn.Name()
+				}
+			}
+			return true
+		})
+		return b.String()
+	}
+	// zero-valued variables first
+	for _, f := range files {
+		for _, d := range f.Decls {
+			gd, ok := d.(*ast.GenDecl)
+			if !ok || gd.Tok != token.VAR {
+				continue
+			}
+			for _, sp := range gd.Specs {
+				vs := sp.(*ast.ValueSpec)
+				if len(vs.Values) != 0 || vs.Type == nil {
+					continue
+				}
+				for _, n := range vs.Names {
+					if n.Name == "_" {
+						continue
+					}
+					if obj, ok := info.Defs[n].(*types.Var); ok && isErr(obj.Type()) {
+						continue
+					}
+					body = append(body, fmt.Sprintf("\t%s = *new(%s)", n.Name, exprStr(vs.Type)))
+				}
+			}
+		}
+	}
+	for _, in := range info.InitOrder {
+		var lhs []string
+		skip := false
+		for _, v := range in.Lhs {
+			if v.Name() == "_" {
+				lhs = append(lhs, "_")
+				continue
+			}
+			if isErr(v.Type()) {
+				skip = true
+			}
+			lhs = append(lhs, v.Name())
+		}
+		allBlank := true
+		for _, l := range lhs {
+			if l != "_" {
+				allBlank = false
+			}
+		}
+		if skip || allBlank {
+			continue
+		}
+		body = append(body, fmt.Sprintf("\t%s = %s", strings.Join(lhs, ", "), exprStr(in.Rhs)))
+	}
+	all := strings.Join(body, "\n")
+	if strings.Contains(all, "sync.Mutex") || strings.Contains(all, "sync.RWMutex") {
+		// the instrumented copy declares these variables with the simulator's mutex types
+		all = strings.ReplaceAll(strings.ReplaceAll(all, "sync.RWMutex", "simrt.RWMutex"), "sync.Mutex", "simrt.Mutex")
+		imports[*mod+"/simrt"] = "simrt"
+		if !strings.Contains(all, "sync.") {
+			delete(imports, "sync")
+		}
+		body = []string{all}
+	}
+	var sb strings.Builder
+	sb.WriteString("//go:build !tinywasm\n\npackage " + pkgName + "\n\n")
+	paths := make([]string, 0, len(imports))
+	for p := range imports {
+		paths = append(paths, p)
+	}
+	sort.Strings(paths)
+	if len(paths) > 0 {
+		sb.WriteString("import (\n")
+		for _, p := range paths {
+			fmt.Fprintf(&sb, "\t%s %q\n", imports[p], p)
+		}
+		sb.WriteString(")\n\n")
+	}
+	sb.WriteString("// SimResetGlobals is generated by the simulator's instrumenter.\nfunc SimResetGlobals() {\n")
+	sb.WriteString(strings.Join(body, "\n"))
+	sb.WriteString("\n}\n")
+	return sb.String()
 }
 
 func (fc *fileCtx) site(pos token.Pos, kind string) *ast.BasicLit {
